@@ -29,6 +29,14 @@ META = {
 CLASSES_REQUIRED = ["single.plain", "multi.plain", "array.plain", "single.split", "multi.split", "array.split",
                     "multi.coalesce", "array.coalesce"]
 MC_ACTIONS = ["AddChar", "AddRangeStr", "AddRangeArr"]
+# CMap!StyleClass: the respects in which a program / font dictionary may depart from the tolerated spelling
+STYLE_CLASSES = ["canon", "grammar.blank", "grammar.sep.bf", "grammar.sep.hdr", "grammar.hex-ws", "grammar.ff-nul",
+                 "grammar.empty-section", "grammar.hdr-form", "grammar.hdr-key",
+                 "font.enc.identity", "font.enc.base", "font.enc.cmapname", "font.enc.dict"]
+# style classes in which the grammar / get_font_encoding as the code is does not get to the CMap (Dev_gram = TRUE in
+# the *_asis cfgs; each is a listed finding until its fix: commit, then the switch of that class goes to FALSE)
+GRAMMAR_KNOWN = {"grammar.sep.bf", "grammar.sep.hdr", "grammar.hex-ws", "grammar.ff-nul", "grammar.empty-section",
+                 "grammar.hdr-key", "font.enc.base", "font.enc.cmapname"}
 # classes of the repaired defects (fix: 3c7db25 range base, 4a2d879 BOM); none is a known finding any more, they only
 # name a regression
 FORMER_INTERVAL = {"multi.split", "multi.coalesce", "array.split", "array.coalesce"}
@@ -77,8 +85,27 @@ def judge_replay(chk, cases, results, cover):
     the failing code (CMap!CaseClass); it only matches a listed finding when lopdf's wrong answer is
     the one the impl-shaped layer predicts."""
     for c, r in zip(cases, results):
-        chk.case(hashlib.sha1(c["t"].encode()).hexdigest())
+        chk.case(hashlib.sha1((c["f"] + c["t"]).encode()).hexdigest())
         defs = [show_def(d) for d in c["d"]]
+        sc = c["sc"]
+        cover["style:" + sc] = cover.get("style:" + sc, 0) + 1
+        if sc != "canon":
+            # a case that departs from the tolerated spelling / font dictionary in one respect (CMap!sty): whatever
+            # goes wrong is put down to that respect (the same definitions are replayed in the tolerated spelling too);
+            # the class is a listed finding only when the impl-shaped layer predicts that lopdf does not get to the CMap
+            ok = (not r["err"] and len(r["per"]) == len(c["c"])
+                  and all(g["p"] == 0 and g["chars"] == e for g, e in zip(r["per"], c["e"]))
+                  and r["whole"]["p"] == 0 and r["whole"]["chars"] == c["w"])
+            if ok:
+                if not c["ma"]:
+                    chk.extra["model_drift"] = chk.extra.get("model_drift", 0) + 1
+            else:
+                chk.violation("C15:" + sc + ("" if not c["ma"] else ".unmodelled"),
+                              {"defs": defs, "style": c["s"], "font_encoding": c["f"], "program": c["t"],
+                               "lopdf": r["err"] or {"encoding": r.get("encv"), "per_code": [got_value(g) for g in r["per"]]},
+                               "expected_chars": c["e"], "model_accepts": c["ma"]})
+            chk.traces += 1
+            continue
         if r["err"]:
             chk.violation("C15:no-encoding", {"defs": defs, "program": c["t"], "lopdf": r["err"]})
             continue
@@ -120,7 +147,7 @@ def mc_emit(chk, cfg, tier, w, cover):
         raise vlib.ToolError("generator produced no cases")
     tag = os.path.splitext(cfg)[0]
     cin, cout = os.path.join(w, tag + ".ndjson"), os.path.join(w, tag + ".out.ndjson")
-    write_ndjson(cin, [{"t": c["t"], "c": c["c"]} for c in cases])
+    write_ndjson(cin, [{"t": c["t"], "c": c["c"], "f": c["f"]} for c in cases])
     run_bin("c15", ["replay", "--in", cin, "--out", cout])
     results = read_ndjson(cout)
     if len(results) != len(cases):
@@ -131,6 +158,10 @@ def mc_emit(chk, cfg, tier, w, cover):
         for e, m, k in zip(c["e"], c["m"], c["k"]):
             if e != m:
                 dev[k] = dev.get(k, 0) + 1
+        if not c["ma"]:
+            chk.extra.setdefault("model_rejections_by_style_class", {})
+            d = chk.extra["model_rejections_by_style_class"]
+            d[c["sc"]] = d.get(c["sc"], 0) + 1
     chk.extra.setdefault("model_counterexamples_by_class", {})
     for k, v in dev.items():
         chk.extra["model_counterexamples_by_class"][k] = chk.extra["model_counterexamples_by_class"].get(k, 0) + v
@@ -154,8 +185,8 @@ def run(tier):
     w = workdir("c15")
     chk.extra["model_drift"] = 0
     quick = tier == "quick"
-    asis = ["MC_CMap_quick_asis.cfg", "MC_CMap_quick2_asis.cfg"] + ([] if quick else ["MC_CMap_thorough_asis.cfg", "MC_CMap_thorough4_asis.cfg", "MC_CMap_thorough3_asis.cfg"])
-    fixed = ["MC_CMap_quick_fixed.cfg", "MC_CMap_quick2_fixed.cfg"] + ([] if quick else ["MC_CMap_thorough_fixed.cfg", "MC_CMap_thorough4_fixed.cfg", "MC_CMap_thorough3_fixed.cfg"])
+    asis = ["MC_CMap_quick_asis.cfg", "MC_CMap_quick2_asis.cfg", "MC_CMap_gram_asis.cfg", "MC_CMap_font_asis.cfg"] + ([] if quick else ["MC_CMap_thorough_asis.cfg", "MC_CMap_thorough4_asis.cfg", "MC_CMap_thorough3_asis.cfg", "MC_CMap_gram_thorough_asis.cfg"])
+    fixed = ["MC_CMap_quick_fixed.cfg", "MC_CMap_quick2_fixed.cfg", "MC_CMap_gram_fixed.cfg", "MC_CMap_font_fixed.cfg"] + ([] if quick else ["MC_CMap_thorough_fixed.cfg", "MC_CMap_thorough4_fixed.cfg", "MC_CMap_thorough3_fixed.cfg", "MC_CMap_gram_thorough_fixed.cfg"])
 
     vlib.build_harness("c15")
     # (M) the same models without Emit (kept from before the repair, when the *_asis cfgs had the deviations on):
@@ -172,13 +203,16 @@ def run(tier):
     for cfg in asis:
         mc_emit(chk, cfg, tier, w, cover)
     chk.exhaustive = True
-    missing = [c for c in CLASSES_REQUIRED if cover.get(c, 0) == 0]
+    missing = [c for c in CLASSES_REQUIRED + ["style:" + x for x in STYLE_CLASSES] if cover.get(c, 0) == 0]
     if missing:
         raise vlib.ToolError("vacuous: no generated code of class %s" % missing)
     chk.extra["replayed_codes_by_class"] = dict(sorted(cover.items()))
     mdev = chk.extra.get("model_counterexamples_by_class", {})
     if mdev:
         raise vlib.ToolError("the model as the code is deviates from the declarative layer: %s" % mdev)
+    mrej = chk.extra.get("model_rejections_by_style_class", {})
+    if not set(mrej) <= GRAMMAR_KNOWN:
+        raise vlib.ToolError("the grammar model as the code is rejects a style class that is not listed: %s" % mrej)
 
     # (M) negative control of Refines: with the repaired defects seeded back into the model (MC_CMap_cex: Dev_h34,
     # Dev_h35 on) strict Refines must fail, in one of the four former classes
@@ -235,6 +269,8 @@ def validate(chk, tr, recs, name):
         raise vlib.ToolError("trace validator judged %d of %d records" % (len(verdicts), len(recs)))
     okcodes = {}
     allcodes = {}
+    styles = {}
+    styles_ok = {}
     lens = set()
     nbig = 0
     for v in verdicts:
@@ -243,10 +279,23 @@ def validate(chk, tr, recs, name):
         chk.case(hashlib.sha1(rec["text"].encode()).hexdigest())
         if v["v"] in ("outside-domain", "short-result"):
             raise vlib.ToolError("record %d is %s (driver mistake): %s" % (v["i"], v["v"], defs[:6]))
+        sc = v["sc"]
+        styles[sc] = styles.get(sc, 0) + 1
+        if sc != "canon":
+            # one respect departs from the tolerated spelling / font dictionary: whatever goes wrong is put down to it
+            if v["v"] != "ok":
+                chk.violation("C15:" + sc, {"defs": defs[:40], "style": rec["sty"], "font_encoding": rec["font"],
+                                            "program": rec["text"][:4000],
+                                            "lopdf": rec["err"] or {"encoding": rec.get("encv"), "verdict": v["v"],
+                                                                    "whole": got_value(rec["whole"])[:40]}})
+            else:
+                styles_ok[sc] = styles_ok.get(sc, 0) + 1
+            chk.traces += 1
+            for d in rec["defs"]:
+                lens.add(d["len"])
+            continue
         if v["v"] == "no-encoding":
-            # the driver labels its grammar probes (one PostScript-legal spelling lopdf's grammar lacks per record)
-            sig = "C15:grammar." + rec["gram"] if rec.get("gram") else "C15:no-encoding"
-            chk.violation(sig, {"defs": defs[:40], "program": rec["text"], "lopdf": rec["err"]})
+            chk.violation("C15:no-encoding", {"defs": defs[:40], "program": rec["text"], "lopdf": rec["err"]})
             continue
         badset = set()
         for b in v["bad"]:
@@ -278,6 +327,11 @@ def validate(chk, tr, recs, name):
         raise vlib.ToolError("vacuous trace set: code lengths %s" % sorted(lens))
     if nbig == 0:
         raise vlib.ToolError("vacuous trace set: no table with a section of 100 entries")
+    for k in STYLE_CLASSES:
+        if styles.get(k, 0) == 0:
+            raise vlib.ToolError("vacuous trace set: no record of style class %s" % k)
+    chk.extra["trace_records_by_style_class"] = dict(sorted(styles.items()))
+    chk.extra["trace_records_ok_by_style_class"] = dict(sorted(styles_ok.items()))
     chk.extra["trace_codes_by_class"] = dict(sorted(allcodes.items()))
     chk.extra["trace_codes_ok_by_class"] = dict(sorted(okcodes.items()))
     s = recs[0]
